@@ -66,7 +66,13 @@ pub async fn build_dataset(
     let mut next = first_id;
     for c in 0..nchunks {
         let bucket = rng.range(0, nbuckets - 1);
-        let k = 1 + rng.usize(5);
+        // now and then one chunk longer than a Parquet reader batch (1024 / 8192 rows), so that
+        // a merge input arrives as several record batches
+        let k = if c == 0 && rng.chance(1, 12) {
+            if rng.chance(1, 3) { 8193 + rng.usize(200) } else { 1025 + rng.usize(600) }
+        } else {
+            1 + rng.usize(5)
+        };
         let rows: Vec<RowSpec> = (0..k)
             .map(|_| {
                 next += 1;
@@ -314,6 +320,12 @@ fn scenario(ctx: &Ctx, out: &mut Outcome, rng: &mut Rng, idx: u64) {
         return;
     }
     out.count("compactor_crashes", res.crashes);
+    if res.original.len() > 1000 {
+        out.count("scenarios_with_a_chunk_over_1024_rows", 1);
+        if res.original.len() > 8192 {
+            out.count("scenarios_with_a_chunk_over_8192_rows", 1);
+        }
+    }
     out.count("clock_jumps", res.jumps);
     out.count("cycles_run", res.cycles.len() as u64);
     out.count("cycles_failed", res.cycles.iter().filter(|c| c.contains("err")).count() as u64);
